@@ -63,6 +63,13 @@ def linear_population(rng, thorough=False):
         yield 'PointwiseInner/weighted/' + n, lambda ps=ps: odl.PointwiseInner(ps, rel(ps, rng), weighting=[1.0, 2.5])
         yield 'PointwiseInner/scalar-weight/' + n, lambda ps=ps: odl.PointwiseInner(ps, rel(ps, rng), weighting=1.7)
         yield 'PointwiseInner/one-component/' + n, lambda sp=sp: odl.PointwiseInner(sp ** 1, rel(sp ** 1, rng))
+        # one component with a non-unit weight (space weighting, one-entry array, the operator's own weighting argument)
+        yield 'PointwiseInner/one-component/pspace-weighted/' + n, \
+            lambda sp=sp: odl.PointwiseInner(odl.ProductSpace(sp, 1, weighting=3.0), rel(odl.ProductSpace(sp, 1, weighting=3.0), rng))
+        yield 'PointwiseInner/one-component/weighted/' + n, lambda sp=sp: odl.PointwiseInner(sp ** 1, rel(sp ** 1, rng), weighting=[2.5])
+        yield 'PointwiseInner/one-component/scalar-weight/' + n, lambda sp=sp: odl.PointwiseInner(sp ** 1, rel(sp ** 1, rng), weighting=0.4)
+        yield 'PointwiseNorm/one-component/weighted/' + n, lambda sp=sp: odl.PointwiseNorm(sp ** 1, weighting=[2.5])
+        yield 'PointwiseSum/one-component/pspace-weighted/' + n, lambda sp=sp: odl.PointwiseSum(odl.ProductSpace(sp, 1, weighting=3.0))
         yield 'PointwiseInner.adjoint/' + n, lambda ps=ps: odl.PointwiseInner(ps, rel(ps, rng), weighting=[1.0, 2.5]).adjoint
         yield 'PointwiseSum/' + n, lambda ps=ps: odl.PointwiseSum(ps)
         yield 'PointwiseSum/weighted/' + n, lambda ps=ps: odl.PointwiseSum(ps, weighting=[2.0, 0.5])
@@ -328,6 +335,10 @@ def functional_recipes(rng, thorough=False):
     yield 'NuclearNorm/svinf/r(2x3)', lambda: S.NuclearNorm(NN(), outer_exp=1, singular_vector_exp=np.inf)
     yield 'IndicatorNuclearNormUnitBall/r(2x3)', lambda: S.IndicatorNuclearNormUnitBall(NN())
     yield 'RosenbrockFunctional/r4', lambda: S.RosenbrockFunctional(odl.rn(4))
+    # non-constant Hessian after a linear operator that moves the point (second derivative at the inner point A x)
+    yield 'derived/comp(Rosenbrock,Matrix)/r4', lambda: S.RosenbrockFunctional(odl.rn(4), scale=2.0) * odl.MatrixOperator(
+        np.array([[0.5, 0.2, 0, 0], [0, 0.7, 0.1, 0], [0.3, 0, 0.6, 0], [0, 0, 0.2, 0.9]]), domain=odl.rn(4), range=odl.rn(4))
+    yield 'derived/comp(L2NormSquared*Power,Scaling)/r4', lambda: (S.L2NormSquared(odl.rn(4)) * odl.PowerOperator(odl.rn(4), 2)) * odl.ScalingOperator(odl.rn(4), 0.6)
     yield 'RosenbrockFunctional/scale/r2', lambda: S.RosenbrockFunctional(odl.rn(2), scale=3.0)
     yield 'NumericalGradient/r4', lambda: odl.solvers.functional.derivatives.NumericalGradient(S.L2NormSquared(r4))
     yield 'NumericalDerivative/r4', lambda: odl.solvers.functional.derivatives.NumericalDerivative(odl.PowerOperator(r4, 2), r4.one())
